@@ -24,7 +24,7 @@ type hxExchange struct {
 	Status   int
 	RespHdr  http.Header
 	mu       sync.Mutex
-	RespBody bytes.Buffer // every byte the handler wrote
+	RespBody bytes.Buffer  // every byte the handler wrote
 	Done     chan struct{} // closed when the handler returned
 }
 
